@@ -302,3 +302,66 @@ func Depth(v *Value) int {
 	}
 	return max
 }
+
+// Dump renders a canonical, typed, byte-exact text of the tree (used to
+// compare documents across processes / builds). Iterative.
+func Dump(v *Value) []byte {
+	var b []byte
+	type fr struct {
+		v   *Value
+		lit string
+	}
+	stack := []fr{{v: v}}
+	for len(stack) > 0 {
+		f := stack[len(stack)-1]
+		stack = stack[:len(stack)-1]
+		if f.v == nil {
+			b = append(b, f.lit...)
+			continue
+		}
+		x := f.v
+		switch x.K {
+		case Null:
+			b = append(b, 'n', ';')
+		case True:
+			b = append(b, 't', ';')
+		case False:
+			b = append(b, 'f', ';')
+		case Int:
+			b = append(b, 'i')
+			b = strconv.AppendInt(b, x.I, 10)
+			b = append(b, ';')
+		case Uint:
+			b = append(b, 'u')
+			b = strconv.AppendUint(b, x.U, 10)
+			b = append(b, ';')
+		case Float:
+			b = append(b, 'd')
+			b = strconv.AppendUint(b, math.Float64bits(x.F), 16)
+			if x.Flag {
+				b = append(b, '!')
+			}
+			b = append(b, ';')
+		case String:
+			b = append(b, 's')
+			b = strconv.AppendInt(b, int64(len(x.S)), 10)
+			b = append(b, ':')
+			b = append(b, x.S...)
+			b = append(b, ';')
+		case Array:
+			b = append(b, '[')
+			stack = append(stack, fr{lit: "]"})
+			for i := len(x.A) - 1; i >= 0; i-- {
+				stack = append(stack, fr{v: x.A[i]})
+			}
+		case Object:
+			b = append(b, '{')
+			stack = append(stack, fr{lit: "}"})
+			for i := len(x.Vals) - 1; i >= 0; i-- {
+				stack = append(stack, fr{v: x.Vals[i]})
+				stack = append(stack, fr{v: &Value{K: String, S: x.Keys[i]}})
+			}
+		}
+	}
+	return b
+}
